@@ -3,7 +3,9 @@ package main
 import (
 	"encoding/json"
 	"flag"
+	"math/big"
 	"math/rand"
+	"strconv"
 
 	"github.com/go-spatial/geom"
 	"github.com/pdok/texel/pointindex"
@@ -12,6 +14,7 @@ import (
 func init() {
 	register("route-replay", routeReplay)
 	register("route-trace", routeTrace)
+	register("route-real", routeReal)
 }
 
 // A TLC vector of MC_Route: lattice points a, b (S units per pixel), hot pixels, specified route (pixels).
@@ -270,4 +273,99 @@ func clampInt(v, lo, hi int) int {
 		return hi
 	}
 	return v
+}
+
+// routeReal: on the built-in (real) grids an edge must meet the pixels its own end points were inserted into, whatever
+// float noise the coordinates carry: insert only a and b, route a-b, and report how many occupied pixels exist at the
+// deepest level and how many the route returned (judged by RouteRealTrace.tla). End points are biased to sit exactly on
+// pixel borders as decimals (where float -> 1e-10 integer conversion is most delicate).
+func routeReal(args []string) int {
+	fs := flag.NewFlagSet("route-real", flag.ExitOnError)
+	seed := fs.Int64("seed", 1, "")
+	n := fs.Int("n", 2000, "")
+	outp := fs.String("out", "-", "")
+	fs.Parse(args)
+	rng := rand.New(rand.NewSource(*seed))
+	out := newJSONL(*outp)
+	defer out.close()
+	sets := []string{"NetherlandsRDNewQuad", "WebMercatorQuad", "NZTM2000Quad", "EuropeanETRS89_LAEAQuad", "UPSArcticWGS84Quad"}
+	for i := 0; i < *n; i++ {
+		g := getRealGrid(sets[rng.Intn(len(sets))])
+		maxz := g.dg.MaxID
+		if maxz > 20 {
+			maxz = 20
+		}
+		z := rng.Intn(maxz + 1)
+		level := g.dg.level(z)
+		pix := g.dg.pixel(z)
+		span, _ := g.dg.Span0.Float64()
+		npix := int64(1) << uint(level)
+		coord := func(min *big.Rat) float64 {
+			k := rng.Int63n(npix-4) + 2
+			r := new(big.Rat).Add(min, new(big.Rat).Mul(pix, big.NewRat(k, 1)))
+			switch rng.Intn(4) {
+			case 0: // exactly on the border (as a decimal of at most 10 places, then the nearest float)
+			case 1: // just inside the pixel to the right / above
+				r.Add(r, new(big.Rat).Mul(pix, big.NewRat(1, 1000)))
+			case 2:
+				r.Sub(r, new(big.Rat).Mul(pix, big.NewRat(1, 1000)))
+			default:
+				r.Add(r, new(big.Rat).Mul(pix, big.NewRat(rng.Int63n(1000), 1000)))
+			}
+			f, _ := strconv.ParseFloat(r.FloatString(10), 64)
+			return f
+		}
+		_ = span
+		a := geom.Point{coord(g.dg.MinX), coord(g.dg.MinY)}
+		var b geom.Point
+		if rng.Intn(2) == 0 { // a short edge of a few pixels
+			pf, _ := pix.Float64()
+			b = geom.Point{a[0] + (rng.Float64()*8-4)*pf, a[1] + (rng.Float64()*8-4)*pf}
+		} else {
+			b = geom.Point{coord(g.dg.MinX), coord(g.dg.MinY)}
+		}
+		rec := map[string]any{"set": g.name, "z": z, "a": []string{strconv.FormatFloat(a[0], 'g', -1, 64), strconv.FormatFloat(a[1], 'g', -1, 64)},
+			"b": []string{strconv.FormatFloat(b[0], 'g', -1, 64), strconv.FormatFloat(b[1], 'g', -1, 64)}, "status": "ok", "hot": 0, "routed": 0, "first_last": true}
+		func() {
+			defer func() {
+				if r := recover(); r != nil {
+					rec["status"] = "panic: " + panicString(r)
+				}
+			}()
+			ix, err := pointindex.FromTileMatrixSet(g.tms, z)
+			if err != nil {
+				rec["status"] = "error: " + err.Error()
+				return
+			}
+			if err := ix.InsertPoint(a); err != nil {
+				rec["status"] = "outside"
+				return
+			}
+			if err := ix.InsertPoint(b); err != nil {
+				rec["status"] = "outside"
+				return
+			}
+			cents := ix.VerifQuadrantCentroids(uint(level))
+			rec["hot"] = len(cents)
+			res := ix.SnapClosestPoints(geom.Line{a, b}, map[pointindex.Level]any{uint(level): struct{}{}}, 0)
+			rt := res[uint(level)]
+			rec["routed"] = len(rt)
+			// the first / last routed centre must be the centre of a pixel an end point was inserted into
+			isCentre := func(c [2]float64) bool {
+				for _, q := range cents {
+					if q.ToGeomPoint() == c {
+						return true
+					}
+				}
+				return false
+			}
+			for _, c := range rt {
+				if !isCentre(c) {
+					rec["first_last"] = false
+				}
+			}
+		}()
+		out.put(rec)
+	}
+	return 0
 }
